@@ -10,7 +10,6 @@
 -/
 import Model.Generated.FloatCells
 import Model.LogCounter
-import Model.Estimator
 namespace Sketchnu.SrcFloat
 open Sketchnu
 
@@ -23,14 +22,5 @@ theorem merge_log16_cell_src (a b mc nr : Nat) (base : Float) :
 /-- the cell body of `_merge_log8` (element type uint8, `uint_maxval = 255`; `_counter2value` still takes a uint16) -/
 theorem merge_log8_cell_src (a b mc nr : Nat) (base : Float) :
     Src.merge_log8_cell a b mc 255 nr base = mergeLogCellF base nr 255 (Float.ofNat mc) a b := rfl
-
-/-! ### the float helpers of the HyperLogLog estimator -/
-
-theorem linear_counting_src (m nZero : Nat) : Src.linear_counting m nZero = hllLinearCountingF m nZero := rfl
-
-theorem estimation_function_src (regs : List Nat) (m : Nat) (alpha : Float) :
-    Src.estimation_function regs m alpha = hllEstimationF alpha m regs := by
-  unfold Src.estimation_function hllEstimationF
-  rw [Nat.pow_two]
 
 end Sketchnu.SrcFloat
